@@ -53,6 +53,8 @@ def confirm(src, sid, prop, demo_dir, checks):
             shutil.copy(f, os.path.join(target, n)); names.append(n)
         pkg = "./" + demo_dir if demo_dir not in (".", "") else "."
         flags = os.environ.get("SEED_DEMO_FLAGS", "").split()
+        if os.environ.get("SEED_DEMO_RUN"):
+            flags += ["-run", os.environ["SEED_DEMO_RUN"]]
         rc0, out0 = sh(["go", "test", "-vet=off", "-count=1"] + flags + [pkg], repo)
         if rc0 != 0:
             print("REJECT: demonstration does not pass on the unchanged tree\n" + out0[-1500:]); return 1
